@@ -9,9 +9,12 @@ Conf(op, tlsA, credA, mirror, repoAuth, eh, es) ==
   [op |-> op,
    tls |-> [r \in Regs |-> IF r = "A" THEN tlsA ELSE TRUE],
    cred |-> [r \in Regs |-> IF r = "A" THEN credA ELSE "up"],
-   mirror |-> mirror, repoAuth |-> repoAuth, extHost |-> eh, extSch |-> es]
+   mirror |-> mirror, repoAuth |-> repoAuth, extHost |-> eh, extSch |-> es, ports |-> FALSE]
+\* the registries are configured and addressed as host:port (no effect on the design: every comparison
+\* in the client is on URL.Host; it is a dimension of the replay, where a change may break that)
+WithPorts(c) == [c EXCEPT !.ports = TRUE]
 CredKinds == {"none", "up", "tok", "uptok"}
-ExtURLs == {<<"E", "https">>, <<"E", "http">>, <<"A", "http">>}
+ExtURLs == {<<"E", "https">>, <<"E", "http">>, <<"A", "http">>, <<"P", "https">>}
 PullConfs(ops, creds) ==
   {Conf(op, t, c, m, ra, "E", "https") : op \in ops, t \in Bools, c \in creds, m \in Bools, ra \in Bools}
 PushConfs(ops, creds) ==
@@ -26,19 +29,24 @@ CoreConfs == PullConfs({"bget", "two"}, {"up", "uptok"})
              \cup PushConfs({"bput", "copy"}, {"up"})
              \cup ExtConfs({"ext"}, {"up", "tok"})
 \* generator spaces: exhaustive to depth 2 in the quick tier, wider in the thorough tier
-QuickGenConfs ==
+QuickBase ==
   {Conf("bget", TRUE, c, m, FALSE, "E", "https") : c \in {"up", "uptok"}, m \in Bools}
   \cup {Conf("mget", t, "up", TRUE, FALSE, "E", "https") : t \in Bools}
   \cup {Conf("two", TRUE, "up", FALSE, ra, "E", "https") : ra \in Bools}
   \cup {Conf("bput", TRUE, "up", FALSE, FALSE, "E", "https"), Conf("mput", TRUE, "tok", FALSE, FALSE, "E", "https"),
         Conf("copy", TRUE, "up", FALSE, FALSE, "E", "https")}
   \cup {Conf("ext", TRUE, "up", FALSE, FALSE, e[1], e[2]) : e \in ExtURLs}
-MidGenConfs ==
+QuickGenConfs ==
+  {IF c.tls["A"] /\ c.op # "two" THEN WithPorts(c) ELSE c : c \in QuickBase}
+  \cup {Conf("bget", TRUE, "up", FALSE, FALSE, "E", "https"), Conf("ext", TRUE, "up", FALSE, FALSE, "A", "http")}
+MidBase ==
   {Conf(op, t, c, m, FALSE, "E", "https") : op \in {"bget", "mhead"}, t \in Bools, c \in {"tok", "uptok"}, m \in Bools}
   \cup {Conf("two", TRUE, "tok", FALSE, ra, "E", "https") : ra \in Bools}
   \cup {Conf("bput", TRUE, "tok", FALSE, FALSE, "E", "https"), Conf("copy", TRUE, "tok", FALSE, FALSE, "E", "https"),
         Conf("bhead", TRUE, "up", TRUE, TRUE, "E", "https")}
   \cup {Conf("ext", TRUE, "tok", FALSE, FALSE, e[1], e[2]) : e \in ExtURLs}
+MidGenConfs == {IF c.mirror THEN c ELSE WithPorts(c) : c \in MidBase}
+SimConfs == AllConfs \cup {WithPorts(c) : c \in AllConfs}
 DeepConfs ==
   {Conf("bget", TRUE, "up", FALSE, FALSE, "E", "https"), Conf("ext", TRUE, "up", FALSE, FALSE, "E", "https"),
    Conf("copy", TRUE, "up", FALSE, FALSE, "E", "https")}
@@ -47,8 +55,10 @@ QuickFaults == {"nf", "err"}
 AllChal == {"none", "mal", "uns", "bnr", "b1", "b2", "t", "bt"}
 CoreChal == {"none", "b1", "b2", "t", "bt"}
 AllFaults == {"nf", "e5", "err"}
-AllRedir == {<<"R", "https">>, <<"R", "http">>, <<"S", "https">>, <<"A", "http">>, <<"A", "https">>, <<"E", "https">>}
-CoreRedir == {<<"R", "https">>, <<"S", "https">>, <<"A", "http">>}
+AllRedir == {<<"R", "https">>, <<"R", "http">>, <<"S", "https">>, <<"A", "http">>, <<"A", "https">>, <<"E", "https">>,
+             <<"P", "https">>, <<"Ac", "http">>}
+CoreRedir == {<<"R", "https">>, <<"S", "https">>, <<"A", "http">>, <<"P", "https">>}
+AllLoc == {<<"P", "https">>, <<"A", "http">>}
 AllTok == {"tokr", "deny", "err"}
 TaRealm == {<<"Ta", "https">>}
 =============================================================================
